@@ -141,6 +141,34 @@ impl World {
         }
     }
 
+    /// Rewrite only the version record and the bid map (used by time-travel migrations); everything
+    /// else in the storage, including entries this harness does not know, keeps its bytes.
+    pub fn rewrite_bids_and_version(&mut self, s: &StateT) {
+        let keys: Vec<Vec<u8>> = self
+            .deps
+            .storage
+            .range(None, None, Order::Ascending)
+            .map(|(k, _)| k)
+            .filter(|k| k.len() >= 5 && &k[0..5] == b"\x00\x03bid")
+            .collect();
+        for k in keys {
+            self.deps.storage.remove(&k);
+        }
+        let st = &mut self.deps.storage;
+        if s.ver != NO_VER {
+            set_version_info(st, &VersionInfoV1 { definition: CRATE_NAME.to_string(), version: s.ver.clone() })
+                .unwrap();
+        }
+        for (k, b) in &s.bids {
+            if b.fmt == "v2" {
+                #[allow(deprecated)]
+                BIDS_V2.save(st, render_id(k).as_bytes(), &bid_to_chain_v2(b)).unwrap();
+            } else {
+                BIDS_V3.save(st, render_id(k).as_bytes(), &bid_to_chain(b)).unwrap();
+            }
+        }
+    }
+
     // ------------------------------------------------------------------ projection
     pub fn project(&self) -> StateT {
         let mut s = StateT::empty();
